@@ -31,7 +31,7 @@ REQUIRED_PROBES = ('term_built_and_kept', 'fault_recursion_inside_get_value', 'f
 
 def ground_term(rng, depth):
     if depth == 0 or rng.random() < 0.3:
-        return rng.choice([('a', 'a'), ('a', 'b'), ('i', 1), ('i', 2), ('a', '[]')])
+        return rng.choice([('a', 'a'), ('a', 'b'), ('i', 1), ('i', 2), ('a', '[]'), ('i', 0), ('i', 0.0), ('a', '')])
     if rng.random() < 0.25:
         return TM.mklist([ground_term(rng, depth - 1) for _ in range(rng.randrange(0, 3))])
     return ('f', rng.choice('gh'), tuple(ground_term(rng, depth - 1) for _ in range(rng.randrange(1, 3))))
